@@ -144,7 +144,7 @@ def burn (minBurn : Nat) (u : Users) (sender : Id) (value : Nat) (inp : BurnIn) 
     | .empty => .error .noAddr
     | .addr a =>
       let n := incI64 (unGet u a)
-      .ok { users := aSet u a n, transfer := ⟨sender, zcnSC, value⟩, nonce := n }
+      .ok { users := aSet u a n, transfer := { src := sender, dst := zcnSC, amount := value }, nonce := n }
 
 def burnRes (s : ZSt) (c : Call) (inp : BurnIn) : Except BurnErr BurnOut :=
   burn s.cfg.minBurn s.users c.sender c.value inp
@@ -307,7 +307,7 @@ def mint (strict : Bool) (s : ZSt) (sender : Id) (p : Option MintIn) (h : Fr) (p
           | .error e => .error e
           | .ok po =>
             .ok { st := { s with minted := p.nonce :: s.minted, pools := po.pools }
-                  transfer := ⟨zcnSC, sender, po.paid⟩
+                  transfer := { src := zcnSC, dst := sender, amount := po.paid }
                   share := po.share, paid := po.paid, rewarded := po.rewarded
                   sigs := sigs, counted := uniq, threshold := thr }
 
